@@ -285,11 +285,15 @@ Print Assumptions C10_workspace_recase_nonvacuous.
    Model/Annot.v: AstAnnotator's table construction (walk_tree / visit / handle_*_decl /
    notify_new_scope / notify_end_method) over the tree the real parser delivers (Model/Tree.v),
    tied to the code by the differential stage `annot` of checks/c10.py.
+   A visited node is a pair (its grandparent is a method node, the node): since the repair c14b1c2
+   a parameter declaration inserts a symbol only under a method's parameter list.
    regular t: the root inserts nothing; its children are: nodes that insert nothing, a class or
    module header, then uses / constants / types / fields, then procedures / functions (nodes that
-   insert nothing anywhere in between); nothing is declared below a header / uses / constant /
-   type / field, and only parameters and local variables below a method.  (Outside this shape the
-   annotator itself departs from the abstract model: C10_tables_from_tree_shape_needed.) *)
+   insert nothing anywhere in between); no INSERTING node below a header / uses / constant / type /
+   field, and only the method's parameters and local variables below a method -- the parameters of
+   procedure / function TYPES insert nothing and may occur anywhere (before the repair they had to
+   be excluded: C10_old_type_param_leak_refuted).  (Outside this shape the annotator itself departs
+   from the abstract model: C10_tables_from_tree_shape_needed.) *)
 From GoldV Require Import Tree Annot AnnotProofs AnnotWitness RangeBase RangeTop.
 
 (* root table and every method's table: the same symbols (name, symbol type) in the same
@@ -313,9 +317,9 @@ Proof. exact regularb_ok. Qed.
    tree with well-formed ranges (C08: NodeWf) the selection range lies inside the range *)
 Theorem C10_tables_from_tree_selection_is_declared_name :
   forall d t T s, In T (tables_of d t) -> In s (t_syms T) ->
-    exists n, In n (visit_seq d t) /\
-      (In s (decl_syms n) /\ a_sel s = name_range n /\ a_range s = nrange n /\
-       (a_name s = nident n \/ (a_name s = s_self /\ dkind_of n = Some DClass))) /\
+    exists p, In p (visit_seq d t) /\
+      (In s (decl_syms p) /\ a_sel s = name_range (snd p) /\ a_range s = nrange (snd p) /\
+       (a_name s = nident (snd p) \/ (a_name s = s_self /\ dkind_at p = Some DClass))) /\
       forall L, Forall_nodes (NodeWf L) t -> inside (a_sel s) (a_range s).
 Proof. exact annot_selection_is_declared_name. Qed.
 
@@ -329,9 +333,9 @@ Proof. exact annot_one_symbol_per_declaration_all. Qed.
 Theorem C10_tables_from_tree_one_symbol_per_declaration :
   forall t, regular t ->
     exists h, find is_header (nchildren t) = Some h /\
-      t_syms (root_table_of false t) = decl_syms h ++ map decl_sym (filter is_member (nchildren t)) /\
+      t_syms (root_table_of false t) = decl_syms (top h) ++ map decl_sym (filter is_member (nchildren t)) /\
       map t_syms (method_tables_of false t) =
-        map (fun m => map decl_sym (filter var_like (below m))) (filter is_method (nchildren t)).
+        map (fun m => map vsym (filter var_like (below t m))) (filter is_method (nchildren t)).
 Proof. exact annot_one_symbol_per_declaration. Qed.
 
 (* non-vacuity on the tree the real parser builds for
@@ -352,16 +356,47 @@ Proof.
   rewrite annot_ex_entity. repeat split; assumption.
 Qed.
 
-(* the shape hypothesis is needed: `class aFoo / type tCb : procedure(x : int4) / proc Run / endproc / fb : int4`
-   (real parser's tree): the parameter of the procedure type is a variable of the root table, the
-   field after the method is in the method's table; the abstract root table lists neither so *)
+(* the shape hypothesis is needed: `class aFoo / proc Run / endproc / fb : int4` (real parser's tree):
+   the field after the method is in the method's table, not in the root table as in the abstract model *)
 Theorem C10_tables_from_tree_shape_needed :
   exists t, find is_header (nchildren t) <> None /\
     map aview (t_syms (root_table_of false t)) <> map sview (syms (root_table (entity_of_tree t))) /\
-    map aview (t_syms (root_table_of false t)) <> map aview (t_syms (root_table_of true t)).
+    map (fun T => map aview (t_syms T)) (method_tables_of false t) = [[([102;98], KField)]].
 Proof.
-  exists annot_irr. destruct annot_irr_facts as (_ & H1 & H2 & _ & H4). rewrite H1, H2, H4.
-  split; [vm_compute; discriminate|]. split; discriminate.
+  exists annot_irr. destruct annot_irr_facts as (_ & H1 & H2 & H4). rewrite H1, H2, H4.
+  split; [vm_compute; discriminate|]. split; [discriminate|reflexivity].
+Qed.
+
+(* regression pair of the repair c14b1c2, on the real parser's tree of
+   class aFoo / type tCb : procedure(x : int4) / proc Run(p : int4) / var cb : procedure(y : int4) / endproc
+   the rule before the repair (annotate_old: every parameter declaration inserts): the type's
+   parameter x is a VARIABLE OF THE CLASS in the full mode -- and not in the definitions-only mode,
+   so the class had two different root tables --, and y a variable of Run *)
+Theorem C10_old_type_param_leak_refuted :
+  exists t, In ([120], KVariable) (map aview (t_syms (st_root (annotate_old false t)))) /\
+    map aview (t_syms (st_root (annotate_old false t))) <> map aview (t_syms (st_root (annotate_old true t))) /\
+    map aview (t_syms (st_root (annotate_old false t))) <> map sview (syms (root_table (entity_of_tree t))) /\
+    In ([121], KVariable) (flat_map (fun T => map aview (t_syms T)) (st_done (annotate_old false t))).
+Proof.
+  exists annot_leak. destruct annot_leak_facts as (H1 & H2 & H3 & _). rewrite H1, H2.
+  split; [cbn; tauto|]. split; [discriminate|]. split; [vm_compute; discriminate|].
+  vm_compute. tauto.
+Qed.
+
+(* the repaired code: the same tree is regular, x and y are in no table, both modes build the same
+   root table, and the tables are those of the abstract model *)
+Theorem C10_fixed_type_param_leak :
+  regular annot_leak /\
+  map aview (t_syms (root_table_of false annot_leak)) =
+    [(s_aFoo, KClass); (s_self, KClass); ([116;67;98], KType); ([82;117;110], KProc)] /\
+  root_table_of false annot_leak = root_table_of true annot_leak /\
+  map (fun T => map aview (t_syms T)) (method_tables_of false annot_leak) = [[([112], KVariable); ([99;98], KVariable)]] /\
+  same_table (root_table_of false annot_leak) (root_table (entity_of_tree annot_leak)).
+Proof.
+  destruct annot_leak_facts as (_ & _ & _ & H4 & H5 & _ & H7).
+  pose proof (regularb_ok annot_leak H4) as Hr.
+  split; [exact Hr|]. split; [exact H5|]. split; [vm_compute; reflexivity|]. split; [exact H7|].
+  apply (tables_from_tree annot_leak Hr).
 Qed.
 
 Print Assumptions C10_tables_from_tree.
@@ -371,3 +406,5 @@ Print Assumptions C10_tables_from_tree_one_symbol_per_declaration_all.
 Print Assumptions C10_tables_from_tree_one_symbol_per_declaration.
 Print Assumptions C10_tables_from_tree_nonvacuous.
 Print Assumptions C10_tables_from_tree_shape_needed.
+Print Assumptions C10_old_type_param_leak_refuted.
+Print Assumptions C10_fixed_type_param_leak.
